@@ -15,6 +15,11 @@ namespace nm = nmtools;
 namespace ix = nmtools::index;
 using sv_t  = nmtools::utl::static_vector<nm_size_t,8>;
 using svi_t = nmtools::utl::static_vector<int,8>;
+// result types (names shared by the C rendering and the native replay)
+using opt_axis_t = nmtools_maybe<unsigned int>;        // normalize_axis(int, size_t)
+using opt_sv_t   = nmtools_maybe<sv_t>;                // normalize_axis(svi_t, size_t)
+using opt_svi_t  = nmtools_maybe<svi_t>;               // shape_reshape(sv_t, svi_t)
+using cnt_t      = nmtools_tuple<int,nm_size_t>;       // count_negative_reshape
 
 // ---- normalize_axis (scalar axis / axis list), ndim as the views pass it (len(shape): size_t)
 auto verif_normalize_axis(int axis, nm_size_t ndim) { return ix::normalize_axis(axis,ndim); }
@@ -39,8 +44,13 @@ auto verif_count_negative_reshape(svi_t dst) { return ix::count_negative_reshape
 auto verif_shape_reshape(sv_t src, svi_t dst) { return ix::shape_reshape(src,dst); }
 auto verif_shape_reshape_safe(sv_t src, svi_t dst) { return ix::shape_reshape(src,dst); }
 
+#ifdef C03_EXTRAS
 // ---- expand_dims / squeeze / atleast_nd / flatten
 auto verif_shape_expand_dims(sv_t shape, int axis) { return ix::shape_expand_dims(shape,axis); }
 auto verif_shape_squeeze(sv_t shape) { return ix::shape_squeeze(shape); }
-auto verif_shape_atleast_nd(sv_t shape, nm_size_t nd) { return ix::shape_atleast_nd(shape,nd); }
+// atleast_1d / atleast_2d / atleast_nd with a compile-time nd as view::atleast_1d/2d pass it (a run-time nd yields std::vector: not instantiated)
+auto verif_shape_atleast_1d(sv_t shape) { return ix::shape_atleast_nd(shape,nm::meta::ct_v<1>); }
+auto verif_shape_atleast_2d(sv_t shape) { return ix::shape_atleast_nd(shape,nm::meta::ct_v<2>); }
+auto verif_shape_atleast_3d(sv_t shape) { return ix::shape_atleast_nd(shape,nm::meta::ct_v<3>); }
 auto verif_shape_flatten(sv_t shape) { return ix::shape_flatten(shape,nm::None); }
+#endif
